@@ -23,6 +23,7 @@ def build(prop, tier, seed, meta, audit, res, wall, proof_ok, nviol, proof_notes
         + list(res.trusted),
         'theorems': audit['theorems'],
         'proof_modules': audit['modules'],
+        'leanchecker': audit.get('leanchecker', 'not run (thorough tier only)'),
         'proof_status': 'all obligations discharged' if proof_ok else proof_notes,
         'evaluations': res.evaluations,
         'distinct_nontrivial': len(res.nontrivial),
@@ -48,7 +49,7 @@ def build(prop, tier, seed, meta, audit, res, wall, proof_ok, nviol, proof_notes
 
 
 def write(prop, ev):
-    d = os.path.join(VERIF, 'evidence')
+    d = os.environ.get('VERIF_EVIDENCE_DIR') or os.path.join(VERIF, 'evidence')
     os.makedirs(d, exist_ok=True)
     path = os.path.join(d, f'{prop}.json')
     tmp = path + '.tmp'
